@@ -358,8 +358,24 @@ class Application(MutableMapping[str | AppKey[Any], Any]):
         if self.on_cleanup.frozen:
             await self.on_cleanup.send(self)
         else:
-            # If an exception occurs in startup, ensure cleanup contexts are completed.
-            await self._cleanup_ctx._on_cleanup(self)
+            # If an exception occurs in startup, ensure cleanup contexts are completed,
+            # in this application and in its sub-applications (their contexts may have
+            # been entered before a later start-up step failed).
+            errors: list[BaseException] = []
+            for app in self._app_tree():
+                try:
+                    await app._cleanup_ctx._on_cleanup(app)
+                except (Exception, asyncio.CancelledError) as exc:
+                    errors.append(exc)
+            if errors:
+                if len(errors) == 1:
+                    raise errors[0]
+                raise CleanupError("Multiple errors on cleanup stage", errors)
+
+    def _app_tree(self) -> Iterator["Application"]:
+        yield self
+        for subapp in self._subapps:
+            yield from subapp._app_tree()
 
     def _prepare_middleware(self) -> Iterator[Middleware]:
         yield from reversed(self._middlewares)
